@@ -56,6 +56,12 @@ class Choices:
         self.labels.append(label)
         return v
 
+    def slot(self, n, label=""):
+        """Integer in [0, n) that always consumes exactly one recorded value, also for n == 1
+        (positions of enumerated prefixes must not depend on how many alternatives a site has)."""
+        v = self.draw(max(n, 2), label)
+        return v % n if n > 0 else 0
+
     # -- helpers (all built on draw)
     def chance(self, p, label=""):
         """True with probability ~p; value 0 (=False) is the simple case."""
